@@ -215,7 +215,84 @@ pub fn judge(c: &Case, o: &Result<Obs, String>) -> Option<(String, serde_json::V
   None
 }
 
+/// the subscriber's handler panics on one item inside the scheduled task (the scheduler catches
+/// the panic); the items behind it and the terminal are still owed, in order. Real LocalPool.
+fn panicking_item_battery(rep: &mut Report) {
+  use rxrust::prelude::*;
+  use std::cell::RefCell;
+  use std::rc::Rc;
+  struct Picky(Rc<RefCell<Vec<String>>>);
+  impl Observer<V, E> for Picky {
+    fn next(&mut self, v: V) {
+      if v.int() == 13 {
+        panic!("the subscriber fails on an item");
+      }
+      self.0.borrow_mut().push(format!("next {}", v.int()));
+    }
+    fn error(self, e: E) {
+      self.0.borrow_mut().push(format!("error {}", e));
+    }
+    fn complete(self) {
+      self.0.borrow_mut().push("complete".into());
+    }
+    fn is_finished(&self) -> bool {
+      false
+    }
+  }
+  for op in 0..3 {
+    for (k, script) in [vec![13i64, 2, 3], vec![1, 13, 3, 4], vec![1, 2, 13]].into_iter().enumerate() {
+      for by_error in [false, true] {
+        let id = format!("panicking-item:{}:{}:{}", op, k, by_error);
+        rep.evaluations += 1;
+        rep.count("histories_with_a_subscriber_that_panics_on_an_item", 1);
+        crate::vtime::reset();
+        let mut pool = futures::executor::LocalPool::new();
+        let log: Rc<RefCell<Vec<String>>> = Default::default();
+        let mut subj = Subject::<'static, V, E>::default();
+        let name = ["observe_on", "delay(0)", "delay(1ms)"][op];
+        match op {
+          0 => std::mem::forget(subj.clone().observe_on(pool.spawner()).actual_subscribe(Picky(log.clone()))),
+          1 => std::mem::forget(subj.clone().delay(Duration::from_millis(0), pool.spawner()).actual_subscribe(Picky(log.clone()))),
+          _ => std::mem::forget(subj.clone().delay(Duration::from_millis(1), pool.spawner()).actual_subscribe(Picky(log.clone()))),
+        }
+        let drive = |pool: &mut futures::executor::LocalPool| {
+          pool.run_until_stalled();
+          crate::vtime::advance_to(crate::vtime::now() + 5_000_000);
+          pool.run_until_stalled();
+        };
+        for (i, v) in script.iter().enumerate() {
+          subj.next(V::I(*v));
+          if i % 2 == 1 {
+            drive(&mut pool);
+          }
+        }
+        // delay forwards an error at once, ahead of what is still waiting: the terminal is sent
+        // once everything before it has been delivered
+        drive(&mut pool);
+        if by_error {
+          subj.clone().error(7)
+        } else {
+          subj.clone().complete()
+        }
+        drive(&mut pool);
+        let mut want: Vec<String> = script.iter().filter(|v| **v != 13).map(|v| format!("next {}", v)).collect();
+        want.push(if by_error { "error 7".into() } else { "complete".into() });
+        let got = log.borrow().clone();
+        rep.events += got.len() as u64 + 1;
+        if got != want {
+          rep.violation("items_or_terminal_lost", &format!("{}[the subscriber panicked on an item]", name), &id, json!({"script": script, "observed": got, "expected": want}));
+        } else {
+          rep.nontrivial.insert(hash64(&id));
+        }
+      }
+    }
+  }
+}
+
 pub fn run(cfg: &Cfg, rep: &mut Report) {
+  if cfg.shard == 0 && cfg.only_case.as_deref().map_or(true, |c| c.starts_with("panicking-item:")) {
+    panicking_item_battery(rep);
+  }
   let total = cfg.n(600_000, 20_000_000);
   let maxev = cfg.n(5, 9);
   let mut rng = Rng::new(cfg.seed ^ 0xC07);
